@@ -1007,6 +1007,8 @@ class Server:
                 return {"error": f'Unknown inspection kind "{show}"'}
         finally:
             self.options.inspections = old_inspections
+            # The engine may have read files (e.g. with force_reload).
+            self.flush_caches()
         if "out" in result:
             assert isinstance(result["out"], str)
             result["out"] += "\n"
